@@ -616,12 +616,12 @@ RULE = (
 def build(tier):
     return CheckSpec(
         [
-            Sub("stream", run_stream, strategy=_stream_case, budget={"quick": 3000, "thorough": 60000}, max_wall={"quick": 50, "thorough": 1800}),
-            Sub("mutated", run_stream, strategy=_mutated_case, budget={"quick": 3000, "thorough": 60000}, max_wall={"quick": 50, "thorough": 1800}),
+            Sub("stream", run_stream, strategy=_stream_case, budget={"quick": 3000, "thorough": 180000}, max_wall={"quick": 50, "thorough": 3600}),
+            Sub("mutated", run_stream, strategy=_mutated_case, budget={"quick": 3000, "thorough": 180000}, max_wall={"quick": 50, "thorough": 3600}),
             Sub("atheris", run_stream, strategy=_mutated_case, external=_atheris, note="coverage-guided (libFuzzer via Atheris): bytes -> (role, cut set, stream), reference-endpoint oracle inside the target; skipped with a note if atheris is not installed"),
-            Sub("serialize", run_serialize, strategy=_fields, budget={"quick": 1500, "thorough": 30000}, max_wall={"quick": 40, "thorough": 900}),
+            Sub("serialize", run_serialize, strategy=_fields, budget={"quick": 1500, "thorough": 90000}, max_wall={"quick": 40, "thorough": 3600}),
             Sub("lengths", run_lengths, cases=cases_lengths, exhaustive=True),
-            Sub("pending", run_pending, strategy=_pending_case, budget={"quick": 400, "thorough": 5000}, max_wall={"quick": 40, "thorough": 600}),
+            Sub("pending", run_pending, strategy=_pending_case, budget={"quick": 400, "thorough": 15000}, max_wall={"quick": 40, "thorough": 3600}),
         ],
         RULE,
         assumptions=[
